@@ -32,6 +32,7 @@ type Case struct {
 	Fn     int    `json:"fn,omitempty"`
 	K      int    `json:"k,omitempty"`
 	Pre    bool   `json:"pre,omitempty"` // the destination already exists (longer, other content, mode 0600)
+	Used   bool   `json:"used,omitempty"` // the hasher was used before
 }
 
 var fsKinds = []string{"MemFS", "OrefaFS", "OsFS", "BasePathFS(MemFS)"}
@@ -165,6 +166,11 @@ func run(c *vt.Ctx, cs Case, scratch string) (dev *vt.Deviation, srcCounts, dstC
 	_ = sf.SetFailFunc(sc.f)
 	_ = df.SetFailFunc(dc.f)
 	h := hasher(cs.Hasher)
+	if h != nil && cs.Used {
+		// the hasher has already served another file: the digest returned must still be
+		// the digest of this file's bytes
+		_, _ = h.Write([]byte("bytes of a file hashed before with the same hasher"))
+	}
 	var sum []byte
 	var rerr error
 	func() {
@@ -300,6 +306,7 @@ func TestCheck(t *testing.T) {
 							// every other case starts with an existing destination
 							base := Case{Func: fn, Src: src, Dst: dst, Size: size, Perm: perm, Hasher: hs}
 							base.Pre = fn != "HashFile" && vt.Hash64(fmt.Sprintf("%+v", base))%2 == 0
+							base.Used = hs != "nil" && vt.Hash64(fmt.Sprintf("used %+v", base))%2 == 0
 							dev, sc, dc, _, _ := run(c, base, scratch)
 							plans++
 							if dev != nil {
